@@ -95,6 +95,16 @@ def run(tier, seed, out):
             f"{len(design)} programs fail on the model (design-level classes)")
     recs = kit.drive("harness.c03", "drive_case", cases, None, chunk=500)
     out.evaluations += len(recs)
+
+    def corrupt(r):      # the built object replaced by "object + 1"
+        if r["res"].get("r") == "ok" and r["p"]["t"] == "bin" and r["p"]["op"] in ("+", "*") \
+                and r["res"]["e"]["t"] in ("Sum", "Product"):
+            r["res"]["e"] = {"t": "Sum", "c": [r["res"]["e"], {"t": "Const", "v": {"k": "int", "n": 1, "d": 1}}]}
+            return r
+        return None
+    out.extra["corrupted_records_rejected"] = kit.corruption_control(
+        "C03_Judge", "C03_Judge", recs, corrupt, wd,
+        flagged=lambda v: v.get("v") not in ("SKIP", "DRIFT", "REFUSED", "OK"))
     judge(out, recs, wd)
     for r in recs:
         out.note_case(r["p"], nontrivial=r["p"]["t"] != "leaf")
